@@ -293,3 +293,6 @@ class HB_on_trial_complete:
 from pyvc.native import native_monitor  # noqa: E402
 
 EXTRA_CHECKS = [native_monitor("C14", "contracts.c04_native", "monitor_hyperband", "hyperband", "631 (thorough 3598) scenarios: the real HyperbandScheduler (promotion, pasha, rush, cost-aware, stopping; 1..3 brackets; all data policies; random and GP searcher) under a Tuner-like event loop with failures and self-completion, compared with an independent ledger (numpy quantiles, three-valued eligibility with tie latitude, total cost, PASHA min/max twin)")]
+
+# synchronous Hyperband: the searcher is told about each resource level of a trial once (bounded contract in contracts/c05.py)
+from contracts.c05 import SyncHB_on_trial_result, I_sbm_level_to_prev_level, I_ss_on_trial_result, I_sbm_on_result  # noqa: F401,E402
